@@ -130,7 +130,9 @@ func writeInsertionPoint(
 		// Insert the content from the insertion point file. Handle newlines in
 		// a platform-agnostic manner.
 		insertedContentReader := strings.NewReader(insertionPointFile.GetContent())
-		writeWithPrefixAndLineEnding(postInsertionContent, insertedContentReader, whitespace, newline)
+		if err := writeWithPrefixAndLineEnding(postInsertionContent, insertedContentReader, whitespace, newline); err != nil {
+			return nil, err
+		}
 
 		// Code inserted at this point is placed immediately
 		// above the line containing the insertion point, so
@@ -176,7 +178,7 @@ func leadingWhitespace(buf []byte) []byte {
 
 // writeWithPrefixAndLineEnding iterates over each of the given reader's lines
 // prepends prefix, and appends the newline sequence.
-func writeWithPrefixAndLineEnding(dst *bytes.Buffer, src io.Reader, prefix, newline []byte) {
+func writeWithPrefixAndLineEnding(dst *bytes.Buffer, src io.Reader, prefix, newline []byte) error {
 	scanner := bufio.NewScanner(src)
 	for scanner.Scan() {
 		// These writes cannot fail, they will panic if they cannot allocate.
@@ -184,6 +186,7 @@ func writeWithPrefixAndLineEnding(dst *bytes.Buffer, src io.Reader, prefix, newl
 		_, _ = dst.Write(scanner.Bytes())
 		_, _ = dst.Write(newline)
 	}
+	return scanner.Err()
 }
 
 type writeResponseOptions struct {
